@@ -10,17 +10,34 @@ from . import emit as E
 
 
 def run_pipeline(ctx, cases, chunk=60):
-    """cases: list of dict(Text, Weight, Repeat, Solve, Assemble, Error, Order)."""
-    outs = []
-    for i in range(0, len(cases), chunk):
-        part = []
-        for c in cases[i:i + chunk]:
-            d = {"Text": c["Text"], "Weight": bool(c.get("Weight")), "Repeat": int(c.get("Repeat", 1)),
-                 "Solve": bool(c.get("Solve")), "Assemble": bool(c.get("Assemble")),
-                 "Error": c.get("Error", ""), "Order": c.get("Order", ""), "ScratchDir": ctx.work,
-                 "ViaPre": bool(c.get("ViaPre")), "WriteBack": bool(c.get("WriteBack")), "ParseOnly": bool(c.get("ParseOnly"))}
-            part.append(d)
-        outs += C.dump("pipeline", part, timeout=1800)
+    """cases: list of dict(Text, Weight, Repeat, Solve, Assemble, Error, Order).  A case marked
+    Isolate runs in a process of its own (package-level state of the implementation, if any, starts
+    fresh): what a run yields must not depend on what the process did before."""
+    def payload(c, scratch=None):
+        return {"Text": c["Text"], "Weight": bool(c.get("Weight")), "Repeat": int(c.get("Repeat", 1)),
+                "Solve": bool(c.get("Solve")), "Assemble": bool(c.get("Assemble")),
+                "Error": c.get("Error", ""), "Order": c.get("Order", ""), "ScratchDir": scratch or ctx.work,
+                "ViaPre": bool(c.get("ViaPre")), "WriteBack": bool(c.get("WriteBack")), "ParseOnly": bool(c.get("ParseOnly"))}
+    outs = [None] * len(cases)
+    shared = [k for k, c in enumerate(cases) if not c.get("Isolate")]
+    alone = [k for k, c in enumerate(cases) if c.get("Isolate")]
+    for i in range(0, len(shared), chunk):
+        idx = shared[i:i + chunk]
+        for k, o in zip(idx, C.dump("pipeline", [payload(cases[k]) for k in idx], timeout=1800)):
+            outs[k] = o
+    if alone:
+        from concurrent.futures import ThreadPoolExecutor
+        with ThreadPoolExecutor(max_workers=8) as ex:
+            def one(k):
+                d = os.path.join(ctx.work, "iso_%d" % k)
+                os.makedirs(d, exist_ok=True)
+                try:
+                    return C.dump("pipeline", [payload(cases[k], d)], timeout=1800)[0]
+                finally:
+                    import shutil
+                    shutil.rmtree(d, ignore_errors=True)
+            for k, o in zip(alone, ex.map(one, alone)):
+                outs[k] = o
     return outs
 
 
